@@ -53,7 +53,8 @@ def _standin(rep, tier, seed, only_search=False):
         checks.append(("empty-diagram", isinstance(E, np.ndarray) and E.shape == tuple(pi.resolution) and not E.any(), {"shape": list(np.shape(E))}))
         L = pi.transform([np.array(F), np.array(G).reshape(-1, 2) if G else np.array(F)])
         checks.append(("single-vs-collection", isinstance(L, list) and len(L) == 2 and np.array_equal(L[0], I_F), {"F": F}))
-        for j in jobs[1:]:
+        # worker pools are restarted whenever n_jobs changes (seconds each): the parallel sweep runs on every 6th imager in the thorough tier
+        for j in (jobs[1:] if (tier == "quick" or it % 6 == 0) else []):
             Pj = pi.transform([np.array(F), np.array(F[::-1])], n_jobs=j)
             checks.append(("serial-vs-parallel", isinstance(Pj, list) and len(Pj) == 2 and np.array_equal(Pj[0], I_F), {"F": F, "n_jobs": j}))
             Pk = pi.transform([np.array([[b, d - b] for b, d in F])], skew=False, n_jobs=j)
